@@ -44,6 +44,14 @@ pub fn check(_ctx: &Ctx, st: &mut Stats, c: &Case) {
     for i in 0..c.len as i32 {
         let date = from_ce(start + i);
         let one = Case { start: d2s(date), len: 1 };
+        // published for the stall watchdog: a conversion that never returns is named by its date
+        if let Ok(mut cur) = crate::rec::CURRENT.lock() {
+            cur.clear();
+            cur.push_str("{\"start\":\"");
+            cur.push_str(&one.start);
+            cur.push_str("\",\"len\":1}");
+        }
+        crate::rec::PROGRESS.fetch_add(1, std::sync::atomic::Ordering::Relaxed);
         st.evaluations += 1;
         if i % 1024 == 0 {
             st.tick();
